@@ -74,13 +74,18 @@ func runC14(c *Check) {
 			s := resultValues(ret, 1)
 			if len(a) == 1 && len(s) == 1 {
 				av, aC := isConstBool(a[0])
-				sv, sC := isConstBool(s[0])
-				if sC && sv {
+				// shouldRequest may be a constant chosen on different paths (an expanded helper's result)
+				srcs, _ := constSources(ret, s[0], 0)
+				for _, src := range srcs {
+					sv, sC := isConstBool(src.Val)
+					if !sC || !sv {
+						continue
+					}
 					nT++
-					ok, w := alwaysPrecededBy(ret, upd)
+					ok, w := alwaysPrecededBy(src.At, upd)
 					c.Decide(ok, "R1", "state.(*MemPool).AddRequest#request-recorded", ret.Pos(), "must-pass-through", w,
 						"shouldRequest=true only after the request time was recorded", "AddRequest can answer shouldRequest=true without recording the request: every peer would be asked at once")
-					ok, w = mustPass(ret, window)
+					ok, w = mustPassAt(src, window)
 					c.Decide(ok, "R1", "state.(*MemPool).AddRequest#request-window", ret.Pos(), "edge-cutset", w,
 						"shouldRequest=true only if no request is active (none, or older than 3 s)", "AddRequest can answer shouldRequest=true while another request for the txid is younger than the three-second window")
 				}
